@@ -59,10 +59,8 @@ Definition w_parent (w : world) (x : nid) : option itree := first_some (t_parent
 Definition w_kind (w : world) (x : nid) : option nkind := option_map ikind (w_find w x).
 Definition is_loose (w : world) (x : nid) : bool := existsb (has_id x) (loose w).
 Definition is_doc_root (w : world) (x : nid) : bool := existsb (fun d => has_id x (doc_root d)) (docs w).
-(* parentless and without siblings: what `_prepare_new_relative` accepts *)
-Definition lone (w : world) (x : nid) : bool :=
-  is_loose w x
-  || existsb (fun d => match d with (pro, r, epi) => has_id x r && null pro && null epi end) (docs w).
+(* parentless, without siblings and not a document's root: what `_prepare_new_relative` accepts *)
+Definition lone (w : world) (x : nid) : bool := is_loose w x.
 Definition is_ancestor_or_self (w : world) (a x : nid) : bool :=
   match w_find w a with Some t => match t_find x t with Some _ => true | None => false end | None => false end.
 
@@ -282,9 +280,10 @@ Section Scripts.
   Definition validate_opt (sib : option nid) (nk : nkind) (k : prog) : prog :=
     match sib with Some x => validate_sibling x nk k | None => k end.
 
-  (* adding below or next to one of its own descendants: lxml refuses, after delb has begun (finding 21) *)
+  (* `_prepare_new_relative`: a node can't be added to its own subtree (the offered node is the node the method is
+     called on, or one of its ancestors) *)
   Definition no_cycle (x n : nid) (k : prog) : prog :=
-    Ask (fun w => if is_ancestor_or_self w n x then Ret (Crash EValueError) else k).
+    Ask (fun w => if is_ancestor_or_self w n x then Ret (Rejected EInvalidOperation) else k).
 
   (* NodeBase._prepare_new_relative for the first offered node, followed (sib = Some x) by x's
      _validate_sibling_operation; objects for strings and tag() definitions are only recorded once nothing can
@@ -295,14 +294,15 @@ Section Scripts.
     | STag fresh name =>
         Ask (fun w => match tagdef_ctx w ctx with
                       | Some (c, ns) => validate_opt sib NTag (Upd (UNewTag c fresh ns name) (k fresh))
-                      | None => Ret (Crash EAttributeError)
+                      | None => Ret (Rejected EInvalidOperation)     (* a parentless text, comment or PI node as context *)
                       end)
     | SNode n =>
         Ask (fun w => if lone w n
-                      then match w_kind w n with
-                           | Some nk => validate_opt sib nk (no_cycle ctx n (k n))
-                           | None => Ret (Crash EUnmodelled)
-                           end
+                      then no_cycle ctx n
+                             (Ask (fun w => match w_kind w n with
+                                            | Some nk => validate_opt sib nk (k n)
+                                            | None => Ret (Crash EUnmodelled)
+                                            end))
                       else Ret (Rejected EInvalidOperation))
     end.
 
@@ -453,7 +453,7 @@ Section Scripts2.
       if Nat.eqb cc 0 && (i =? 0)%Z
       then match src with
            | SNode n => if lone w n then no_cycle p n (add_first_child p n (Ret ROk))
-                        else Ret (Crash EUnmodelled)        (* finding 19: an attached node is moved silently *)
+                        else Ret (Rejected EInvalidOperation)
            | _ => Ret ROk                                  (* finding 18: strings / tag() are dropped silently *)
            end
       else if ((i <? 0) || (Z.of_nat cc <=? i))%Z then Ret (Rejected EIndexError)
